@@ -323,13 +323,16 @@ def _pool(nproc=16):
 
 def _new_stats():
     return dict(states=0, transitions=0, traces_validated=0, evaluations=0, distinct=0, samples=[], mismatches=[],
-                mismatch_count=0, explained_count=0, unexplained_count=0, by_explanation={}, wall_s=0.0, runs=[])
+                mismatch_count=0, explained_count=0, unexplained_count=0, by_explanation={}, by_property={},
+                wall_s=0.0, runs=[])
 
 
 def _add_mismatch(st, m):
     st['mismatch_count'] += 1
     key = m['explained_by'] or 'UNEXPLAINED'
     st['by_explanation'][key] = st['by_explanation'].get(key, 0) + 1
+    bp = st['by_property'].setdefault(m['property'], {})
+    bp[key] = bp.get(key, 0) + 1
     if m['explained_by']:
         st['explained_count'] += 1
     else:
@@ -358,6 +361,10 @@ def _merge(a, b):
     a['runs'] += b['runs']
     for k, v in b['by_explanation'].items():
         a['by_explanation'][k] = a['by_explanation'].get(k, 0) + v
+    for prop, d in b['by_property'].items():
+        bp = a['by_property'].setdefault(prop, {})
+        for k, v in d.items():
+            bp[k] = bp.get(k, 0) + v
     a['mismatches'] = a['mismatches'] + b['mismatches']
     _trim(a)
     return a
@@ -389,26 +396,26 @@ def parse_groups(tier, suite):
         'full': _grp(3 if q else 4, full),
         'fullv': _grp(4 if q else 5, full, 1),
         # operator table: one representative per level + prefix forms + if/else
-        'ops': _grp(5 if q else 7, ['a', '+', '*', '**', '-', 'not', 'in', '==', 'and']),
-        'ops2': _grp(5 if q else 7, ['a', 'or', 'if', 'else', '<', 'not', 'in', '-']),
+        'ops': _grp(5 if q else 6, ['a', '+', '*', '**', '-', 'not', 'in', '==', 'and']),
+        'ops2': _grp(5 if q else 6, ['a', 'or', 'if', 'else', '<', 'not', 'in', '-']),
         'opsv': _grp(7 if q else 9, ['a', '+', '**', '-', 'not', 'in', '==', 'and', 'if', 'else', '=>'], 1),
         # suffixes vs prefix / binary operators
-        'suffix': _grp(5 if q else 6, ['a', '.', '|', '(', ')', '[', ']', '-', 'not', '**']),
-        'suffixv': _grp(8 if q else 10, ['a', '.', '|', '(', ')', '[', ']', '-', 'not', '**', ':'], 1),
+        'suffix': _grp(5 if q else 6, ['a', '.', '|', '(', ')', '[', ']', '-']),
+        'suffixv': _grp(6 if q else 7, ['a', '.', '|', '(', ')', '[', ']', '-', 'not', '**', ':'], 1),
         # calls, lists, lambdas, parameter lists, trailing commas
-        'call': _grp(5 if q else 7, ['a', '(', ')', ',', '=>', '.', '|', '+']),
-        'callv': _grp(9 if q else 11, ['a', '(', ')', ',', '=>', '.', '|'], 1),
-        'list': _grp(5 if q else 7, ['a', '1', '[', ']', ',', ':', '=>']),
-        'listv': _grp(8 if q else 10, ['a', '1', '[', ']', ',', ':'], 1),
+        'call': _grp(5 if q else 6, ['a', '(', ')', ',', '=>', '.', '|', '+']),
+        'callv': _grp(10 if q else 11, ['a', '(', ')', ',', '=>', '.', '|'], 1),
+        'list': _grp(5 if q else 6, ['a', '1', '[', ']', ',', ':', '=>']),
+        'listv': _grp(9 if q else 10, ['a', '1', '[', ']', ',', ':'], 1),
         'dict': _grp(6 if q else 8, ['a', '{', '}', ':', ',']),
-        'dictv': _grp(10 if q else 12, ['a', '{', '}', ':', ',', 'if', 'else'], 1),
+        'dictv': _grp(11 if q else 13, ['a', '{', '}', ':', ',', 'if', 'else'], 1),
         # statements, separators, index assignment, del, reserved words
-        'stmt': _grp(5 if q else 7, ['a', '[', ']', '=', '+=', 'del', 'nl', ';', '1']),
-        'stmtv': _grp(8 if q else 10, ['a', '[', ']', '=', '+=', 'del', 'nl', '1', '.', '(', ')'], 1),
+        'stmt': _grp(5 if q else 6, ['a', '[', ']', '=', '+=', 'del', 'nl', ';', '1']),
+        'stmtv': _grp(6 if q else 7, ['a', '[', ']', '=', '+=', 'del', 'nl', '1', '.', '(', ')'], 1),
         'resv': _grp(5 if q else 6, ['a', 'for', '(', ')', '=', '+', 'nl', ',', 'not', 'in']),
         # line numbers: separators and bracketed line breaks before an error
-        'lines': _grp(5 if q else 7, ['a', 'nl', ';', 'crlf', '[', ']', ',', '+']),
-        'linesv': _grp(8 if q else 10, ['a', 'nl', ';', 'crlf', '[', ']', ',', '+', '('], 1),
+        'lines': _grp(5 if q else 6, ['a', 'nl', ';', 'crlf', '[', ']', ',', '+']),
+        'linesv': _grp(6 if q else 8, ['a', 'nl', ';', 'crlf', '[', ']', ',', '+', '('], 1),
     }
     suites = {
         'C06': ['full', 'fullv', 'ops', 'ops2', 'opsv', 'suffix', 'suffixv', 'call', 'callv', 'list', 'listv', 'stmt', 'stmtv'],
@@ -454,6 +461,14 @@ def _worker_parse_a(args):
                 expl = _expl_name(rec['expl']) if cd is None else None
                 exp = rec['n']
             mism.append(mk_mismatch(c, text, _show_spec(exp), _show_obs(obs), expl, 'A:' + grp['id']))
+        elif not rec['same']:
+            # the code agrees with the normative reading although a listed deviation says otherwise on this input
+            m = mk_mismatch(compare(obs, rec['d']) or 'accept', text, _show_spec(rec['d']), _show_obs(obs), None,
+                            'A:' + grp['id'])
+            m['kind'] = 'deviation-absent:' + m['kind']
+            m['note'] = 'code agrees with the normative specification but not with the listed deviations: ' + \
+                        str(_expl_name(rec['expl']))
+            mism.append(m)
         elif len(samples) < 2 and len(rec['s']) >= 3 and (obs['ok'] or n % 7 == 0):
             samples.append({'input': text, 'spec': _show_spec(rec['n']), 'observed': _show_obs(obs)})
     return n, bad, mism, samples, per
@@ -528,11 +543,60 @@ def run_parse_a(tier='quick', seed=0, deviations=ALL_DEVIATIONS, suite='all'):
     return st
 
 
+EXPECTED_INVARIANT = {
+    'NotInBindsTight': 'InvC06', 'ParenSingleParamRejected': 'InvC06',
+    'MethodTrailingCommaDropsArg': 'InvC15', 'DictTrailingCommaRejected': 'InvC15',
+    'EofAttributeError': 'InvC16',
+    'SemicolonCountsAsLine': 'InvC20', 'BracketNewlineNotCounted': 'InvC20', 'NewlineTokenLineAfter': 'InvC20',
+}
+
+
+def run_deviation_models(tier='quick'):
+    """Non-vacuity of the property invariants of MC_Parse (InvC06 / InvC15 / InvC16 / InvC20): they hold on the
+    normative model and TLC finds a violation as soon as the corresponding deviation is switched on.
+    -> dict(ok, rows=[{deviations, invariant, violated, witness}])"""
+    groups = [g for g in parse_groups('quick', 'all') if g['id'] in ('full', 'opsv', 'callv', 'dictv', 'linesv')]
+    for g in groups:
+        g['maxlen'] = {'full': 2, 'opsv': 5, 'callv': 8, 'dictv': 9, 'linesv': 4}[g['id']]
+    d = common.scratch_dir('lexparse')
+    rows = []
+    ok = True
+    t0 = time.time()
+    for devs, inv in [((), None)] + [((k,), v) for k, v in EXPECTED_INVARIANT.items()]:
+        cfgfile = os.path.join(d, 'mcd_%s.json' % ('_'.join(devs) or 'none'))
+        with open(cfgfile, 'w') as f:
+            json.dump({'deviations': sorted(set(devs) | set(IMPL_DETAIL)),
+                       'groups': [{'maxlen': g['maxlen'], 'prune': g['prune'], 'alphabet': g['alphabet']} for g in groups]}, f)
+        tlccfg = os.path.join(d, 'MCD_Parse_%s.cfg' % (inv or 'all'))
+        with open(tlccfg, 'w') as f:
+            f.write('CONSTANTS\n  ExtraInfo <- MCExtraInfo\n  Deviations <- CfgDeviations\nINIT Init\nNEXT Next\n'
+                    + ''.join('INVARIANT %s\n' % i for i in ([inv] if inv else ['InvC06', 'InvC15', 'InvC16', 'InvC20']))
+                    + 'CHECK_DEADLOCK FALSE\n')
+        r = common.run_tlc('MC_Parse', cfg=tlccfg, env={'LEXPARSE_CFG': cfgfile}, timeout=600)
+        wit = None
+        if r.invariant_violated:
+            mg = re.search(r'/\\ g = (\d+)', r.out)
+            ms = re.search(r'/\\ s = <<([\d, ]*)>>', r.out)
+            if mg and ms:
+                grp = groups[int(mg.group(1)) - 1]
+                wit = _render_lexemes(grp, [int(x) for x in ms.group(1).split(',') if x.strip()])
+        if inv is None:
+            good = r.ok and not r.invariant_violated
+        else:
+            good = r.invariant_violated == inv
+        if r.rc not in (0, 12) and not r.invariant_violated:
+            raise MachineryError('TLC failed on MC_Parse/%s: rc=%s\n%s' % (inv, r.rc, r.out[-2000:]))
+        ok = ok and good
+        rows.append({'deviations': list(devs), 'invariant': inv or 'all four', 'violated': r.invariant_violated,
+                     'as_expected': good, 'witness': wit, 'states': r.generated})
+    return {'ok': ok, 'rows': rows, 'wall_s': round(time.time() - t0, 1)}
+
+
 # ============================================================================== direction A: lexer
 
 LEX_GENERAL = ['"', "'", '\\', 'r', 'a', 'n', '1', '.', '%', '#', '\n', '\r', ';', '(', ')', '=', '*', '>', '+',
                ' ', '\t', '\u00e9', '\u0663', '$', '_']
-LEX_GENERAL_T = LEX_GENERAL + ['t', '[', '}', '<', '!', '-', '/', '|', ',', ':', '\u00b2', '\u00a0', 'i', 'f']
+LEX_GENERAL_T = LEX_GENERAL + ['t', '[', '}', '<', '!', '-', '\u00b2']
 
 
 def lex_groups(tier):
@@ -545,7 +609,7 @@ def lex_groups(tier):
         # string literals: quotes, backslash, the escape letters, raw prefix, line break
         ('strings', 6 if q else 7, ['"', "'", '\\', 'n', 'r', 't'] if q else ['"', "'", '\\', 'n', 'r', 't', '\n']),
         # names, numbers, %..% names, non-ASCII letters and digits
-        ('names', 5 if q else 6, ['%', 'a', '1', '.', ' ', '\n', '\u0663', '\u00e9', 'i'] + ([] if q else ['_', 'f'])),
+        ('names', 5 if q else 6, ['%', 'a', '1', '.', ' ', '\n', '\u0663', '\u00e9', 'i']),
         # operators and their longest-match / ordered-alternative behaviour
         ('ops', 5 if q else 6, ['=', '>', '<', '!', '*', '+', '-', '/', '.', '|']),
         # line structure: brackets, separators, comments
@@ -654,6 +718,27 @@ def run_lex_a(tier='quick', seed=0, deviations=ALL_DEVIATIONS):
     st['wall_s'] = time.time() - t0
     st['runs'].append({'model': 'MC_Lex', 'tier': tier, 'groups': {g[0]: [g[1], g[2]] for g in groups}, 'strings': n,
                        'tlc_wall_s': round(r.wall, 1), 'wall_s': round(st['wall_s'], 1)})
+    return st
+
+
+def run_lex_sm(tier='quick'):
+    """The lexer as a state machine (SQLexerSM: one action per rule) model-checked against the pure function Lex on all
+    texts of length <= 3 over 31 characters; every rule action must have been taken (-coverage)."""
+    st = _new_stats()
+    t0 = time.time()
+    r = common.run_tlc('MC_LexSM', cfg='MC_LexSM.cfg', coverage=True, timeout=900)
+    if not r.ok:
+        raise MachineryError('TLC failed on MC_LexSM: rc=%s %s\n%s' % (r.rc, r.invariant_violated, r.out[-2000:]))
+    cov = {k: v for k, v in r.coverage().items() if k.startswith('R_')}
+    missing = [k for k, v in cov.items() if v[0] == 0]
+    if len(cov) != 32 or missing:
+        raise MachineryError('MC_LexSM: rule actions never taken: %s (%d actions seen)' % (missing, len(cov)))
+    st['states'] = st['transitions'] = r.generated
+    st['distinct'] = r.distinct
+    st['wall_s'] = time.time() - t0
+    st['runs'].append({'model': 'MC_LexSM', 'invariants': ['AgreesWithLex', 'LineCounters', 'Deterministic'],
+                       'states': r.generated, 'action_coverage': {k: v[1] for k, v in cov.items()},
+                       'tlc_wall_s': round(r.wall, 1)})
     return st
 
 
@@ -1286,6 +1371,7 @@ def _count(it):
 def run_direction_a(tier='quick', seed=0, deviations=ALL_DEVIATIONS):
     st = run_parse_a(tier, seed, deviations, 'all')
     _merge(st, run_lex_a(tier, seed, deviations))
+    _merge(st, run_lex_sm(tier))
     return st
 
 
@@ -1297,12 +1383,20 @@ def run_direction_b(tier='quick', seed=0, deviations=ALL_DEVIATIONS, kinds=None)
 
 
 def _view(st, prop):
+    """The part of a result that concerns one property.  Unexplained mismatches of ANY clause are kept: they are
+    violations (or machinery errors) whatever property the clause belongs to."""
     out = dict(st)
     out['property'] = prop
-    out['all_mismatch_count'] = st['mismatch_count']
+    out['all_properties'] = {'mismatch_count': st['mismatch_count'], 'by_property': st['by_property']}
+    mine = dict(st['by_property'].get(prop, {}))
+    unexpl = sum(d.get('UNEXPLAINED', 0) for d in st['by_property'].values())
+    out['by_explanation'] = {k: v for k, v in mine.items() if k != 'UNEXPLAINED'}
+    if unexpl:
+        out['by_explanation']['UNEXPLAINED'] = unexpl
+    out['explained_count'] = sum(v for k, v in mine.items() if k != 'UNEXPLAINED')
+    out['unexplained_count'] = unexpl
+    out['mismatch_count'] = out['explained_count'] + unexpl
     out['mismatches'] = [m for m in st['mismatches'] if m['property'] == prop or not m['explained_by']]
-    out['mismatch_count'] = len(out['mismatches'])
-    out['unexplained_count'] = sum(1 for m in out['mismatches'] if not m['explained_by'])
     return out
 
 
@@ -1335,6 +1429,7 @@ def check_C16_syntax(tier='quick', seed=0, deviations=ALL_DEVIATIONS):
 
 def check_C18_names(tier='quick', seed=0, deviations=ALL_DEVIATIONS):
     st = run_lex_a(tier, seed, deviations)
+    _merge(st, run_lex_sm(tier))
     b = _new_stats()
     run_cases_b(generate_cases(tier, seed, ('sentence', 'soup', 'tests', 'layout')), deviations, b)
     return _view(_merge(st, b), 'C18')
@@ -1404,6 +1499,143 @@ def hostile_batch():
     return {'model': 'hostile-batch', 'results': res, 'violations': viol, 'wall_s': round(time.time() - t0, 1)}
 
 
+# ============================================================================== binding self-tests
+
+def selftest_corruption(deviations=ALL_DEVIATIONS):
+    """Corrupt one recorded field of a genuine observation and require TLC to reject exactly that record with the
+    matching clause; the untouched records must be accepted.  -> (ok, report lines)"""
+    import copy
+    im = impl()
+
+    def obs(text):
+        return im.observe(text)
+
+    def set_path(rec, path, fn):
+        o = rec
+        for k in path[:-1]:
+            o = o[k]
+        o[path[-1]] = fn(o[path[-1]])
+
+    plan = [
+        ('a + b * 2', None, None, None),
+        ('a + b * 2', 'token type', (['toks', 0, 'type'], lambda v: 'NUMBER'), 'lex.tokens'),
+        ('x = [1,\n2]\ny', 'token lineno', (['toks', 8, 'lineno'], lambda v: v + 1), 'lex.tokens'),
+        ('"a\\nb"', 'string value', (['toks', 0, 'val'], lambda v: v[:-1]), 'lex.tokens'),
+        ('a + b * 2', 'tree node', (['parse', 'tree', 'ch', 0, 'ch', 1, 'op'], lambda v: '+'), 'parse.tree'),
+        ('2 ** 3 ** 2', 'tree shape (** regrouped to the left)',
+         (['parse', 'tree', 'ch', 0], lambda t: {'k': 'bin', 'op': '**', 'ch': [
+             {'k': 'bin', 'op': '**', 'ch': [t['ch'][0], t['ch'][1]['ch'][0]]}, t['ch'][1]['ch'][1]]}), 'parse.tree'),
+        ('x = [1,\n2]\ny z', 'error line', (['parse', 'line'], lambda v: v + 1), 'parse.line'),
+        ('x = [1,\n2]\ny z', 'error token', (['parse', 'text'], lambda v: cps('y')), 'parse.token'),
+        ('1 +', 'exception class', (['parse', 'class'], lambda v: 'ParserError' if v != 'ParserError' else 'KeyError'),
+         'parse.class'),
+        ('a b', 'accept instead of reject',
+         (['parse'], lambda v: {'ok': True, 'tree': {'k': 'code', 'ch': [{'k': 'name', 'name': 'a'}]}, 'look': v['look'],
+                                'residue': v['residue']}), 'parse.accept'),
+        ('f(a, %b c%)', 'name list', (['names'], lambda v: v[:-1]), 'names.list'),
+        ('a $ b', 'illegal character', (['lexerr', 'ch'], lambda v: v + 1), 'lex.errchar'),
+        ('(a\n', 'residual paren_count', (['lexres', 'paren'], lambda v: 0), 'lex.residue'),
+        ('a\n\nb c', 'parser residue', (['parse', 'residue', 'lineno'], lambda v: v + 1), 'parse.residue'),
+    ]
+    records, expect = [], []
+    for text, what, corr, clause in plan:
+        r = copy.deepcopy(obs(text))
+        if corr:
+            set_path(r, corr[0], corr[1])
+        records.append(r)
+        expect.append((text, what, clause))
+    _, verdicts = validate_records(records, deviations)
+    ok = True
+    lines = []
+    for (text, what, clause), v in zip(expect, verdicts):
+        got = v['lex'] + v['d']
+        if clause is None:
+            good = v['v'] == 'accepted'
+            lines.append('%-4s untouched record %r -> %s' % ('ok' if good else 'FAIL', text, v['v']))
+        else:
+            good = v['v'] == 'rejected' and clause in got
+            lines.append('%-4s corrupted %-38s of %r -> %s %s' % ('ok' if good else 'FAIL', what, text, v['v'], got))
+        ok = ok and good
+    # a listed deviation that is NOT in the specification run: the genuine record must be rejected
+    r = [obs('1; 2; x y')]
+    _, v1 = validate_records(r, [d for d in deviations if d != 'SemicolonCountsAsLine'])
+    good = v1[0]['v'] == 'rejected' and 'parse.line' in v1[0]['d']
+    lines.append('%-4s genuine record %r judged WITHOUT SemicolonCountsAsLine -> %s %s'
+                 % ('ok' if good else 'FAIL', '1; 2; x y', v1[0]['v'], v1[0]['d']))
+    return ok and good, lines
+
+
+MUTANTS = {
+    # name: (file, old, new, property expected to report an unexplained mismatch)
+    'power-left-assoc': ('lexer.py', "('right', 'POWER')", "('left', 'POWER')", 'C06'),
+    'uminus-below-pipe': ('lexer.py', "    ('left', 'PIPE'),\n    ('left', 'DOT'),\n    ('right', 'NOT'),\n    ('right', 'UMINUS'),",
+                          "    ('right', 'UMINUS'),\n    ('left', 'PIPE'),\n    ('left', 'DOT'),\n    ('right', 'NOT'),", 'C06'),
+    'percent-name-greedy': ('lexer.py', '(%.*?%)', '(%.*%)', 'C18'),
+    'trailing-comma-list-dropped': ('rules.py', "    if len(p) == 3:\n        p[0] = CallOp(name='list', args=[])\n    else:",
+                                    "    if len(p) == 3:\n        p[0] = CallOp(name='list', args=[])\n    elif len(p) == 5:\n"
+                                    "        p[0] = CallOp(name='list', args=p[2][:-1])\n    else:", 'C15'),
+    'lineno-counts-crlf-twice': ('lexer.py', "        t.lexer.lineno += 1\n        return t",
+                                 "        t.lexer.lineno += len(t.value)\n        return t", 'C20'),
+    # a REPAIR, not a defect: with EofAttributeError still listed the harness must notice that the deviation is gone
+    'fix-eof-parsererror': ('rules.py', "def p_error(p):\n",
+                            "def p_error(p):\n    if p is None:\n        raise ParserError('Syntax error: unexpected end of input')\n",
+                            'C16'),
+}
+
+
+def make_mutant(name):
+    """A scratch copy of the repository with one seeded change; -> its path (never touches /repo)."""
+    import shutil
+    fn, old, new, _ = MUTANTS[name]
+    dst = os.path.join(common.scratch_dir('mutants'), name)
+    if os.path.exists(dst):
+        shutil.rmtree(dst)
+    os.makedirs(dst)
+    shutil.copytree(os.path.join(common.REPO, 'smartquery'), os.path.join(dst, 'smartquery'),
+                    ignore=shutil.ignore_patterns('__pycache__'))
+    if os.path.isdir(os.path.join(common.REPO, 'tests')):
+        shutil.copytree(os.path.join(common.REPO, 'tests'), os.path.join(dst, 'tests'),
+                        ignore=shutil.ignore_patterns('__pycache__'))
+    path = os.path.join(dst, 'smartquery', fn)
+    src = open(path).read()
+    if old not in src:
+        raise MachineryError('mutant %s does not apply to %s' % (name, fn))
+    open(path, 'w').write(src.replace(old, new, 1))
+    return dst
+
+
+def selftest_mutants(names=None, tier='quick', seed=0):
+    """Run the property check a mutant targets against a scratch copy (VERIF_REPO); it must report an unexplained
+    mismatch.  -> (ok, report lines)"""
+    import subprocess
+    ok = True
+    lines = []
+    for name in (names or list(MUTANTS)):
+        prop = MUTANTS[name][3]
+        repo = make_mutant(name)
+        out = os.path.join(common.scratch_dir('mutants'), name + '.json')
+        t0 = time.time()
+        p = subprocess.run([sys.executable, os.path.abspath(__file__), '--only', prop, '--tier', tier, '--seed', str(seed),
+                            '--json', out], env=dict(os.environ, VERIF_REPO=repo, PYTHONHASHSEED='0'),
+                           stdout=subprocess.PIPE, stderr=subprocess.STDOUT, text=True)
+        detected = p.returncode == 1
+        wit = ''
+        try:
+            res = json.load(open(out))[prop]
+            w = [m for m in res['mismatches'] if not m['explained_by']]
+            if w:
+                w.sort(key=lambda m: len(m['input']))
+                wit = '%d unexplained, e.g. %r [%s] expected %s observed %s' % (
+                    res['unexplained_count'], w[0]['input'], w[0]['kind'],
+                    json.dumps(w[0]['expected'])[:160], json.dumps(w[0]['observed'])[:160])
+        except (OSError, ValueError, KeyError):
+            wit = p.stdout[-400:]
+        lines.append('%-4s mutant %-28s check %s rc=%d %.0fs  %s' % ('ok' if detected else 'MISS', name, prop, p.returncode,
+                                                                       time.time() - t0, wit))
+        ok = ok and detected
+    return ok, lines
+
+
 # ============================================================================== main
 
 def summarize(name, st):
@@ -1425,7 +1657,23 @@ def main(argv):
                     help='comma separated list of deviations currently listed as present in the code ("" = none)')
     ap.add_argument('--only', default='', help='a, b, C06, C15, C16, C18, C20')
     ap.add_argument('--json', default='')
+    ap.add_argument('--selftest', default='', help='corruption | deviation-models | mutants | mutants:<name>,<name>')
     a = ap.parse_args(argv)
+    if a.selftest:
+        if a.selftest == 'corruption':
+            ok, lines = selftest_corruption()
+        elif a.selftest == 'deviation-models':
+            res = run_deviation_models(a.tier)
+            ok = res['ok']
+            lines = ['%-4s deviations=%-32s invariant %-9s violated=%-8s witness=%r' % (
+                'ok' if r['as_expected'] else 'FAIL', ','.join(r['deviations']) or '(none)', r['invariant'], r['violated'],
+                r['witness']) for r in res['rows']]
+        else:
+            names = a.selftest.split(':', 1)[1].split(',') if ':' in a.selftest else None
+            ok, lines = selftest_mutants(names, a.tier, a.seed)
+        print('\n'.join(lines))
+        print('SELFTEST %s' % ('PASSED' if ok else 'FAILED'))
+        return 0 if ok else 1
     devs = tuple(d for d in a.deviations.split(',') if d)
     todo = [x for x in a.only.split(',') if x] or ['a', 'b']
     fns = {'a': run_direction_a, 'b': run_direction_b, 'C06': check_C06, 'C15': check_C15, 'C16': check_C16_syntax,
